@@ -11,6 +11,7 @@ import AbtemVerif.Model.Com
 import AbtemVerif.Props.C14
 import AbtemVerif.Gen.ComC
 import AbtemVerif.Lib.DFT
+import AbtemVerif.Lib.DFT2
 import Mathlib.Tactic.Ring
 import Mathlib.Tactic.Linarith
 import Mathlib.Tactic.FieldSimp
@@ -277,6 +278,46 @@ theorem integrate_gradient_recovers_field_up_to_mean (N : ℕ) [NeZero N] (kx ky
     rw [ZMod.dft_apply_zero]
   simp only [Pi.sub_apply, Pi.smul_apply, smul_eq_mul, hdc]
   ring
+
+/-- For every Fourier pair with a zero-frequency index (`HasDC`: `F x z = Σ x`, constants have no other component — the
+1-D and 2-D DFT, `zmodPair_hasDC`, `zmodPair2_hasDC`) the inverse transform of the zero-mode delta is the constant `1/N`. -/
+theorem hasDC_inv_delta {ι : Type*} [Fintype ι] [DecidableEq ι] [Nonempty ι] (P : FourierPair ι) (z : ι) (h : P.HasDC z) :
+    P.Finv (Pi.single z 1) = fun _ => (1 : ℂ) / (Fintype.card ι : ℂ) := by
+  have hN : (Fintype.card ι : ℂ) ≠ 0 := by
+    have : 0 < Fintype.card ι := Fintype.card_pos
+    exact_mod_cast (ne_of_gt this)
+  have hF : P.F (fun _ => (1 : ℂ) / (Fintype.card ι : ℂ)) = Pi.single z 1 := by
+    funext k
+    by_cases hk : k = z
+    · subst hk
+      rw [h.dc, Pi.single_eq_same, Finset.sum_const, Finset.card_univ, nsmul_eq_mul]
+      field_simp
+    · rw [h.const _ k hk, Pi.single_eq_of_ne hk]
+  rw [← hF, P.inv_left]
+
+/-- **Integrated gradient = generating field minus its mean**, for every Fourier pair with a zero-frequency index — in
+particular for the 2-D DFT on an `n × m` image (`zmodPair2 n m`, see the example below). -/
+theorem integrate_gradient_recovers_field_minus_mean {ι : Type*} [Fintype ι] [DecidableEq ι] [Nonempty ι] (P : FourierPair ι)
+    (kx ky : ι → ℝ) (k0 : ι) (hdc : P.HasDC k0) (hk0 : ∀ k, (kx k = 0 ∧ ky k = 0) ↔ k = k0) (φ gx gy : ι → ℂ)
+    (hgx : ∀ k, P.F gx k = 2 * Real.pi * Complex.I * kx k * P.F φ k)
+    (hgy : ∀ k, P.F gy k = 2 * Real.pi * Complex.I * ky k * P.F φ k) :
+    P.Finv (fun k => igThat (P.F gx k) (P.F gy k) (kx k) (ky k)
+        (if igK2 (kx k) (ky k) = 0 then (1e-12 : ℂ) else igK2 (kx k) (ky k)))
+      = fun j => φ j - (∑ i, φ i) / (Fintype.card ι : ℂ) := by
+  rw [integrate_gradient_recovers_field P kx ky k0 hk0 φ gx gy hgx hgy, hasDC_inv_delta P k0 hdc]
+  funext j
+  simp only [Pi.sub_apply, Pi.smul_apply, smul_eq_mul, hdc.dc]
+  ring
+
+/-- the 2-D instance: an `n × m` image under the 2-D DFT -/
+example (n m : ℕ) [NeZero n] [NeZero m] (kx ky : ZMod n × ZMod m → ℝ)
+    (hk0 : ∀ k, (kx k = 0 ∧ ky k = 0) ↔ k = (0, 0)) (φ gx gy : ZMod n × ZMod m → ℂ)
+    (hgx : ∀ k, (zmodPair2 n m).F gx k = 2 * Real.pi * Complex.I * kx k * (zmodPair2 n m).F φ k)
+    (hgy : ∀ k, (zmodPair2 n m).F gy k = 2 * Real.pi * Complex.I * ky k * (zmodPair2 n m).F φ k) :
+    (zmodPair2 n m).Finv (fun k => igThat ((zmodPair2 n m).F gx k) ((zmodPair2 n m).F gy k) (kx k) (ky k)
+        (if igK2 (kx k) (ky k) = 0 then (1e-12 : ℂ) else igK2 (kx k) (ky k)))
+      = fun j => φ j - (∑ i, φ i) / (Fintype.card (ZMod n × ZMod m) : ℂ) :=
+  integrate_gradient_recovers_field_minus_mean (zmodPair2 n m) kx ky (0, 0) (zmodPair2_hasDC n m) hk0 φ gx gy hgx hgy
 
 /-! ### non-vacuity -/
 example : comX 2 2 (fun i j => ((2 * i + j + 1 : Nat) : Rat)) (fun i => if i = 0 then -1 else 1) = 4 := by decide +kernel
